@@ -35,6 +35,11 @@ class AgentInternalError(Exception):
     """The reference agent met something it cannot handle (harness error)."""
 
 
+class Silent(Exception):
+    """RFC 3412 7.1 (3): no Report may be generated for a message whose reportableFlag is 0 -- the agent stays silent
+    and the (real) transport would time out."""
+
+
 class CapExceeded(Exception):
     """The client sent more requests than the cap allows (non-termination)."""
 
@@ -188,6 +193,7 @@ class Agent:
         self.respond_hook = None   # f(agent, req) -> bytes | None, before normal processing of an accepted request
         self.mangle = None         # f(agent, req, response_bytes) -> bytes
         self.salt_counter = 0
+        self.honor_reportable = True
         self.trace = []  # free-form flags used as known-finding triggers
 
     # -- database -----------------------------------------------------
@@ -347,7 +353,10 @@ class Agent:
         zeroed = build(b"\x00" * 12)
         return build(hmac96(algo, auth_key, zeroed))
 
-    def report(self, msg_id, rid, oid, counter, flags=0, user=None) -> bytes:
+    def report(self, msg_id, rid, oid, counter, flags=0, user=None, req_flags=4) -> bytes:
+        if not req_flags & 4 and self.honor_reportable:
+            self.trace.append("report_suppressed_unreportable")
+            raise Silent("request with reportableFlag 0 cannot be answered with a Report (%s)" % S(oid))
         pdu = self.encode_pdu(
             PDU_REPORT, rid, 0, 0,
             [(oid, T_COUNTER, vber.int_content(counter))],
@@ -360,7 +369,22 @@ class Agent:
 
     # -- the sender seam ------------------------------------------------------
     async def __call__(self, endpoint, data, timeout=None, retries=None, loop=None):
-        return self.handle(data, timeout=timeout, retries=retries)
+        try:
+            return self.handle(data, timeout=timeout, retries=retries)
+        except Silent as exc:
+            # what puresnmp's own UDP sender raises when nothing comes back (the only puresnmp name used in this module)
+            from puresnmp.exc import Timeout
+
+            raise Timeout("the agent does not answer: %s" % exc)
+
+    def handle_or_timeout(self, data: bytes, timeout=None, retries=None) -> bytes:
+        """handle(), but a silent agent surfaces as the transport's Timeout (for senders that call the agent directly)"""
+        try:
+            return self.handle(data, timeout=timeout, retries=retries)
+        except Silent as exc:
+            from puresnmp.exc import Timeout
+
+            raise Timeout("the agent does not answer: %s" % exc)
 
     def handle(self, data: bytes, timeout=None, retries=None) -> bytes:
         if self.request_cap is not None and len(self.log) >= self.request_cap:
@@ -417,18 +441,18 @@ class Agent:
             req["discovery"] = (req["engine_id"] == b"" and req["user"] == b""
                                 and flags & 3 == 0)
             return self._finish(req, self.report(
-                msg_id, rid, OID_UNKNOWN_ENGINE, self.stats["unknownEngine"]))
+                msg_id, rid, OID_UNKNOWN_ENGINE, self.stats["unknownEngine"], req_flags=flags))
         user = self.users.get(req["user"])
         if user is None:
             self.stats["unknownUser"] += 1
             req["verdict"] = "unknownUserName"
             return self._finish(req, self.report(
-                msg_id, rid, OID_UNKNOWN_USER, self.stats["unknownUser"]))
+                msg_id, rid, OID_UNKNOWN_USER, self.stats["unknownUser"], req_flags=flags))
         if (flags & 3) != user.level:
             self.stats["unsupportedLevel"] += 1
             req["verdict"] = "unsupportedSecLevel"
             return self._finish(req, self.report(
-                msg_id, rid, OID_UNSUPPORTED_LEVEL, self.stats["unsupportedLevel"]))
+                msg_id, rid, OID_UNSUPPORTED_LEVEL, self.stats["unsupportedLevel"], req_flags=flags))
         if flags & 1:
             ok = False
             if len(req["digest"]) == 12:
@@ -440,20 +464,20 @@ class Agent:
                 self.stats["wrongDigest"] += 1
                 req["verdict"] = "wrongDigest"
                 return self._finish(req, self.report(
-                    msg_id, rid, OID_WRONG_DIGEST, self.stats["wrongDigest"]))
+                    msg_id, rid, OID_WRONG_DIGEST, self.stats["wrongDigest"], req_flags=flags))
             if (req["boots"] != self.boots
                     or abs(req["time"] - self.engine_time()) > 150):
                 self.stats["notInWindow"] += 1
                 req["verdict"] = "notInTimeWindow"
                 return self._finish(req, self.report(
                     msg_id, rid, OID_NOT_IN_WINDOW, self.stats["notInWindow"],
-                    flags=1, user=user))
+                    flags=1, user=user, req_flags=flags))
         if flags & 2:
             if "cipher" not in req:
                 self.stats["decryptError"] += 1
                 req["verdict"] = "decryptionError"
                 return self._finish(req, self.report(
-                    msg_id, rid, OID_DECRYPT_ERROR, self.stats["decryptError"]))
+                    msg_id, rid, OID_DECRYPT_ERROR, self.stats["decryptError"], req_flags=flags))
             enc, dec = PRIV_IMPL[user.priv]
             try:
                 plain = dec(self.priv_key(user), req["salt"], req["cipher"])
@@ -463,7 +487,7 @@ class Agent:
                 req["verdict"] = "decryptionError"
                 req["decrypt_exc"] = str(exc)
                 return self._finish(req, self.report(
-                    msg_id, rid, OID_DECRYPT_ERROR, self.stats["decryptError"]))
+                    msg_id, rid, OID_DECRYPT_ERROR, self.stats["decryptError"], req_flags=flags))
             req["plain_scoped"] = plain
             req.update(scoped)
         elif "pdu" not in req:
